@@ -220,6 +220,7 @@ var primitiveKeys = map[string]bool{
 	"sync.Mutex.Lock": true, "sync.Mutex.Unlock": true, "sync.Mutex.TryLock": true,
 	"sync.RWMutex.Lock": true, "sync.RWMutex.Unlock": true, "sync.RWMutex.RLock": true, "sync.RWMutex.RUnlock": true,
 	"sync.RWMutex.TryRLock": true, "sync.RWMutex.TryLock": true,
+	"sync.Once.Do": true,
 }
 
 func (g *Gen) isPrimitiveKey(keys []string) bool {
@@ -236,6 +237,26 @@ func (g *Gen) primitiveWrites(keys []string, c *ssa.CallCommon) map[string]bool 
 	for _, k := range keys {
 		if strings.HasPrefix(k, "sync.") && primitiveKeys[k] {
 			out["LOCK"] = true
+		}
+		if k == "sync.Once.Do" {
+			out["ONCE"] = true
+			if len(c.Args) == 2 {
+				if mc, ok := c.Args[1].(*ssa.MakeClosure); ok {
+					if f, ok := mc.Fn.(*ssa.Function); ok {
+						if con := g.spec.Contracts[funcKey(f)]; con != nil && con.HasMod {
+							for h := range g.contractModNames(con, f, nil) {
+								out[h] = true
+							}
+						} else {
+							for h := range g.modOf(f) {
+								out[h] = true
+							}
+						}
+					}
+				} else {
+					out["*"] = true
+				}
+			}
 		}
 		if k == "binary.Read" {
 			out["GH$rdpos"] = true
@@ -281,6 +302,7 @@ func (fv *FuncVC) primitive(keys []string, c *ssa.CallCommon, args []*Val, resT 
 	case "sync.Mutex.Lock", "sync.RWMutex.Lock", "sync.Mutex.Unlock", "sync.RWMutex.Unlock", "sync.RWMutex.RLock", "sync.RWMutex.RUnlock",
 		"sync.RWMutex.TryRLock", "sync.RWMutex.TryLock", "sync.Mutex.TryLock":
 		id := fv.lockID(args[0])
+		fv.noteLockID(id)
 		h := fv.heapGet("LOCK", "(Array Int Int)")
 		held := "(select " + h + " " + id + ")"
 		op := key[strings.LastIndex(key, ".")+1:]
@@ -311,6 +333,26 @@ func (fv *FuncVC) primitive(keys []string, c *ssa.CallCommon, args []*Val, resT 
 			fv.heapSet("LOCK", "(Array Int Int)", "(ite "+ok+" (store "+h+" "+id+" (- 1)) "+h+")")
 			return &Val{T: ok, Typ: resT}, true
 		}
+		return void, true
+	case "sync.Once.Do":
+		// Do(f) calls f exactly when no earlier Do on this Once has run (ghost ONCE[o]); A-MUTEX
+		id := fv.lockID(args[0])
+		once := fv.heapGet("ONCE", "(Array Int Bool)")
+		done := "(select " + once + " " + id + ")"
+		fnv := args[1]
+		if fnv.Fn == nil {
+			fv.note("sync.Once.Do with an unknown function value: havoc of memory reachable from its arguments")
+			fv.havocExtTyped(args[1:])
+		} else {
+			callee := fnv.Fn.(*ssa.Function)
+			saved := fv.cur.clone()
+			savedPC := fv.pc
+			fv.pc = and(fv.pc, not(done))
+			fv.callFunctionValue(callee, fnv.Bind, pos)
+			fv.pc = savedPC
+			fv.cur = fv.mergeStates([]*State{fv.cur, saved}, []string{not(done), done})
+		}
+		fv.heapSet("ONCE", "(Array Int Bool)", "(store "+fv.heapGet("ONCE", "(Array Int Bool)")+" "+id+" true)")
 		return void, true
 	case "binary.Read":
 		return fv.primBinaryRead(c, args, resT, pos), true
